@@ -184,9 +184,11 @@ func (w *World) begin(kind, path string, off int64, n int) *Fault {
 	p.Trace = append(p.Trace, OpRec{Kind: kind, Class: cls, Name: name, Path: path, Off: off, Len: n})
 	for i := range p.Faults {
 		if p.Faults[i].AtOp == idx {
-			if p.Faults[i].Kind == "call" {
-				w.Stats.FaultsFired["outside-event@"+kind]++
-				p.Fired = append(p.Fired, "outside-event@"+kind)
+			if p.Faults[i].Kind == "call" || p.Faults[i].Kind == "overlap" {
+				// "overlap": what acts meanwhile is another simulated process
+				name := map[string]string{"call": "outside-event@", "overlap": "overlap@"}[p.Faults[i].Kind] + kind
+				w.Stats.FaultsFired[name]++
+				p.Fired = append(p.Fired, name)
 				if w.OnCall != nil {
 					w.OnCall(p.Faults[i].Arg)
 				}
